@@ -41,14 +41,20 @@ def run(rep: Report, ctx: Any) -> str:
 
     # ---- R04.1 -----------------------------------------------------------------------------------------------------
     top = list(tplq.frags(et.tree.body))
-    st = [f for f in top if f.kind == "expr" and f.text == "response.status_code.value"]
+    # (the variable of `for x in endpoint.responses` is canonical: endpoint.responses[*]; a `set` variable reads as its definition)
+    st = [f for f in top if f.kind == "expr" and f.text == "endpoint.responses[*].status_code.value"]
     rep.check(len(st) == 1 and st[0].loops == ("endpoint.responses",) and not st[0].guards, "R04.1", "endpoint_module.py.jinja::one-test-per-response",
               "the status test is not emitted once per parsed response", where=f"{PKG}/templates/{et.name}", lhs=[(f.loops, f.guards) for f in st],
               rhs="inside `for response in endpoint.responses`, unguarded")
     rets = [f for f in top if f.kind == "data" and f.loops == ("endpoint.responses",) and re.search(r"^\s*return\b", f.text, re.M)]
     arms = {tuple(p for _, p in f.guards if True) for f in rets}
-    pr = [f for f in rets if any(g == "parsed_responses" and p for g, p in f.guards)]
-    npr = [f for f in rets if any(g == "parsed_responses" and not p for g, p in f.guards)]
+    # the "this operation has a typed result" flag, however it is named or inlined: the guard built from endpoint.responses|length
+    # and the response type
+    def typed(g: str) -> bool:
+        return "endpoint.responses|length" in g and "response_type()" in g
+
+    pr = [f for f in rets if any(typed(g) and p for g, p in f.guards)]
+    npr = [f for f in rets if any(typed(g) and not p for g, p in f.guards)]
     rep.check(bool(pr) and bool(npr), "R04.1", "endpoint_module.py.jinja::every-branch-returns", "a status branch can fall through without returning",
               where=f"{PKG}/templates/{et.name}", lhs=[len(pr), len(npr)], rhs="return on both arms of parsed_responses")
     tail = [f for f in top if f.kind == "data" and "raise errors.UnexpectedStatus(response.status_code, response.content)" in f.text]
@@ -110,9 +116,10 @@ def run(rep: Report, ctx: Any) -> str:
               lhs=[norm(i.test) for i in ifs], rhs="`not <data.content>` and `<media_type_schema> is None` both return empty_response(...)")
 
     # ---- R04.3 ----------------------------------------------------------------------------------------------------------
-    cons = [f for f in top if f.kind == "expr" and f.text.startswith("prop_template.construct(response.prop, response.source.attribute)")]
-    direct = [f for f in top if f.kind == "expr" and f.text == "response.source.attribute" and any("response.source.return_type eq response.prop.get_type_string()" in g and p for g, p in f.guards)]
-    casts = [f for f in top if f.kind == "data" and "= cast(" in f.text and any("response.source.return_type eq" in g and not p for g, p in f.guards)]
+    R = "endpoint.responses[*]"
+    cons = [f for f in top if f.kind == "expr" and f.text.startswith(f"prop_template.construct({R}.prop, {R}.source.attribute)")]
+    direct = [f for f in top if f.kind == "expr" and f.text == f"{R}.source.attribute" and any(f"{R}.source.return_type eq {R}.prop.get_type_string()" in g and p for g, p in f.guards)]
+    casts = [f for f in top if f.kind == "data" and "= cast(" in f.text and any(f"{R}.source.return_type eq" in g and not p for g, p in f.guards)]
     rep.check(bool(cons) and any(g == "prop_template.construct" and p for g, p in cons[0].guards), "R04.3", "endpoint_module.py.jinja::uses-construct",
               "the kind's construct macro is not used when it exists", where=f"{PKG}/templates/{et.name}")
     rep.check(bool(direct) and bool(casts), "R04.3", "endpoint_module.py.jinja::direct-or-cast", "direct assignment / cast selection changed",
@@ -158,7 +165,9 @@ def run(rep: Report, ctx: Any) -> str:
             arms_txt[f.guards] = arms_txt.get(f.guards, "") + f.text
     bare = [f for f in frs if f.kind == "data" and "raise TypeError()" in f.text and "try:" not in arms_txt.get(f.guards, "")]
     rep.require(bare, "bare raise TypeError() in union construct")
-    unmod = "ns.contains_unmodified_properties"
+    # the namespace flag (the namespace variable is canonical: it reads as its own definition)
+    all_atoms = {a for f in frs for a in tplq.guard_atoms(f)}
+    unmod = next((a for a in sorted(all_atoms) if a.endswith(".contains_unmodified_properties")), "<ns>.contains_unmodified_properties")
     n_b = 0
     for f in bare:
         n_b += 1
